@@ -31,3 +31,9 @@ def gen(tier, rng):
     for t0 in ([5, 50, 61, 100, 131] if thorough else [20]):
         yield nodegen.c15_timeout_script(rng, "silence-%d" % t0, [60, 90, 300], t0, t0 + 420)
     yield nodegen.backoff_script(rng, "backoff", 48 if thorough else 20)
+    vals = [0, 1, 100, 119, 121, 200, 300, 3600, 65535]
+    combos = [(3600, 200), (200, 3600), (3600, 200, 3600), (300, 121, 65535), (65535, 1), (1, 65535)]
+    combos += [tuple(rng.choice(vals) for _ in range(rng.choice([2, 3, 4]))) for _ in range(200 if thorough else 30)]
+    yield nodegen.c15_multi_interval_script(rng, "interval-multi", combos)
+    yield nodegen.c15_multi_interval_script(rng, "interval-multi-ka", combos[:20], own=(300, "1000"))
+    yield nodegen.c15_learned_timeout_script(rng, "learned-timeout")
